@@ -155,7 +155,8 @@ def check_body(ctx, facts, body, which):
             if T + 'MAX_CLOCK_DRIFT' not in consts:
                 continue
             # the measured quantity: saturating_sub(x, wall)
-            subs = [(b, t) for b, t in calls if cname(t) and cname(t).startswith('core::time::Duration::') and t['dest']['l'] in flow.backward([l])]
+            subs = [(b, t) for b, t in calls if cname(t) and cname(t).startswith('core::time::Duration::') and 'sub' in last_seg(cname(t))
+                    and len(t['args']) == 2 and t['dest']['l'] in flow.backward([l])]
             subs += [(b, t) for b, t in calls if cname(t) == 'core::ops::arith::Sub::sub' and t['dest']['l'] in flow.backward([l])]
             for sb_, st_ in subs:
                 meth = cname(st_).rsplit('::', 1)[1]
@@ -173,18 +174,19 @@ def check_body(ctx, facts, body, which):
                 # drifted edge: measured > MAX  -> must lead to Err; write dominated by the other edge
                 drift_edge = c['true_edge'] if rel in ('>', '>=') else c['false_edge']
                 safe_edge = c['false_edge'] if rel in ('>', '>=') else c['true_edge']
-                guards.append({'meth': meth, 'x_roles': x_roles, 'w_is_wall': w_is_wall, 'rel': rel,
+                full_res = all('core::time::Duration' in body.local_ty(c[k]) for k in ('lhs', 'rhs'))
+                guards.append({'meth': meth, 'x_roles': x_roles, 'w_is_wall': w_is_wall, 'rel': rel, 'full_res': full_res,
                                'dom': body.edge_dominates(safe_edge, wb), 'line': c['line'],
                                'drift_to_err': bool(set(errs) & body.reachable_from([drift_edge[1]])) and wb not in body.reachable_from([drift_edge[1]])})
     def guard_ok(g, roles):
-        return g['meth'] == 'saturating_sub' and g['w_is_wall'] and roles <= g['x_roles'] and g['dom'] and g['drift_to_err'] and g['rel'] in ('>', '>=')
+        return g['meth'] == 'saturating_sub' and g['w_is_wall'] and roles <= g['x_roles'] and g['dom'] and g['drift_to_err'] and g['rel'] in ('>', '>=') and g['full_res']
     new_roles = {'wall', 'old'} | ({'msg'} if which == 'recv' else set())
     g_new = [g for g in guards if guard_ok(g, new_roles)]
     ctx.ob('C09.H4', which + '|drift-guard-new-time', bool(g_new), site(body),
            'state write dominated by the not-drifted edge of `(new_time saturating_sub wall) > MAX_CLOCK_DRIFT`' if g_new else
-           'no drift guard on the new logical time dominates the state write (guards seen: %s): the clock can run ahead of the wall clock without bound' % guards)
+           ('the drift is compared only after being truncated to a coarser unit (operands are not Durations): a clock up to one unit beyond the permitted drift is accepted' if any(not g['full_res'] for g in guards) else 'no drift guard on the new logical time dominates the state write (guards seen: %s): the clock can run ahead of the wall clock without bound' % guards))
     if which == 'recv':
-        g_msg = [g for g in guards if g['meth'] == 'saturating_sub' and g['w_is_wall'] and g['x_roles'] == {'msg'} and g['dom'] and g['drift_to_err']]
+        g_msg = [g for g in guards if g['meth'] == 'saturating_sub' and g['w_is_wall'] and g['x_roles'] == {'msg'} and g['dom'] and g['drift_to_err'] and g['full_res']]
         ctx.ob('C09.H4', 'recv|drift-guard-message', bool(g_msg), site(body),
                'message time is drift-checked before it can influence the clock' if g_msg else 'the remote timestamp is not drift-checked')
         # equal node id refused before any clock read
